@@ -14,8 +14,13 @@ INF == 1000000000
 
 Abs(x) == IF x < 0 THEN -x ELSE x
 
+\* coordinate of a halo cell outside the raster (Dask pads the coordinate grids with NaN):
+\* every distance to or from it is NaN, and every comparison with NaN is false -> INF behaves the same
+NAC == -999999
+
 \* squared distance between cell (r1,c1) and (r2,c2) in the units the code compares
 DD(e, r1, c1, r2, c2) ==
+  IF e.xs[c1] = NAC \/ e.xs[c2] = NAC \/ e.ys[r1] = NAC \/ e.ys[r2] = NAC THEN INF ELSE
   CASE e.metric = "E" -> (e.xs[c1]-e.xs[c2])*(e.xs[c1]-e.xs[c2]) + (e.ys[r1]-e.ys[r2])*(e.ys[r1]-e.ys[r2])
     [] e.metric = "M" -> (Abs(e.xs[c1]-e.xs[c2]) + Abs(e.ys[r1]-e.ys[r2])) * (Abs(e.xs[c1]-e.xs[c2]) + Abs(e.ys[r1]-e.ys[r2]))
     [] e.metric = "T" -> e.tab[r1*e.W + c1 + 1][r2*e.W + c2 + 1]
@@ -73,6 +78,32 @@ Fwd(ph, sb) == (ph = "down" /\ sb = 0) \/ (ph = "up" /\ sb = 1)
 
 \* allocation / direction images are overwritten wherever the sweep named a cell
 Merge(e, old, nxy, lp) == [c \in 0..e.W-1 |-> IF nxy[c] # NONE /\ lp[c] >= 0 THEN nxy[c] ELSE old[c]]
+
+\* ---------------------------------------------------------------- the whole run as a function
+\* state of the outer loops: [ph, line, sub, panX, panY, lp, imgD, aR, aC]
+StepRun(e, s) ==
+  LET NRw == NoneRow(e)
+      lp0 == IF s.sub = 0 THEN (IF s.ph = "down" THEN NRw ELSE s.imgD[s.line]) ELSE s.lp
+      pX0 == IF s.ph = "up" /\ s.line = e.H-1 /\ s.sub = 0 THEN NRw ELSE s.panX
+      pY0 == IF s.ph = "up" /\ s.line = e.H-1 /\ s.sub = 0 THEN NRw ELSE s.panY
+      s1 == ProcLine(e, [panX |-> pX0, panY |-> pY0, lp |-> lp0, nx |-> NRw, ny |-> NRw], s.line, Fwd(s.ph, s.sub))
+      nph == IF s.sub = 0 THEN s.ph
+             ELSE IF s.ph = "down" THEN (IF s.line = e.H-1 THEN "up" ELSE "down")
+             ELSE (IF s.line = 0 THEN "done" ELSE "up")
+      nline == IF s.sub = 0 THEN s.line
+               ELSE IF s.ph = "down" THEN (IF s.line = e.H-1 THEN e.H-1 ELSE s.line + 1)
+               ELSE (IF s.line = 0 THEN 0 ELSE s.line - 1)
+  IN [ph |-> nph, line |-> nline, sub |-> 1 - s.sub, panX |-> s1.panX, panY |-> s1.panY, lp |-> s1.lp,
+      imgD |-> IF s.sub = 1 THEN [s.imgD EXCEPT ![s.line] = s1.lp] ELSE s.imgD,
+      aC |-> [s.aC EXCEPT ![s.line] = Merge(e, s.aC[s.line], s1.nx, s1.lp)],
+      aR |-> [s.aR EXCEPT ![s.line] = Merge(e, s.aR[s.line], s1.ny, s1.lp)]]
+RECURSIVE RunFrom(_,_)
+RunFrom(e, s) == IF s.ph = "done" THEN s ELSE RunFrom(e, StepRun(e, s))
+\* final [imgD, aR, aC] of _process_numpy on environment e
+RunAll(e) ==
+  LET NRw == NoneRow(e)  NI == [r \in 0..e.H-1 |-> NRw]
+  IN RunFrom(e, [ph |-> "down", line |-> 0, sub |-> 0, panX |-> NRw, panY |-> NRw, lp |-> NRw,
+                 imgD |-> NI, aR |-> NI, aC |-> NI])
 
 \* ---------------------------------------------------------------- abstract definition
 Cells(e) == (0..e.H-1) \X (0..e.W-1)
